@@ -94,7 +94,7 @@ def export_job(interp, c, case):
     ptype, spec, stochastic = case
     import libsbml
     T = interp.load("bioscrape.types")
-    values = {"k": 1.5, "K": 2.5, "n": 2.0}
+    values = {"k": 0.000123456789012, "K": 2.5000001234567, "n": 2.0}       # values with many significant digits, one of them small
     rx, params = build(T, ptype, spec, values)
     M = T.ns["Model"](species=list(SPECIES), reactions=[rx], parameters=params,
                       initial_condition_dict={"A": 3, "B": 4, "C": 0})
@@ -118,6 +118,17 @@ def export_job(interp, c, case):
                        "what": "%s: file law '%s', generated law '%s'" % (tag, law_f, law_g)})
     if ok is False:
         c.failures[-1]["replay"] = dict(rp, values={}, via="file")
+    # the exported global parameters carry the model's own values (the laws are evaluated over them)
+    mp = M.get_parameter_dictionary()
+    bad_vals = []
+    for p_ in sm.getListOfParameters():
+        nm_ = p_.getId() if p_.getId() in mp else "_" + p_.getId()
+        if nm_ in mp and float(p_.getValue()) != float(mp[nm_]):
+            bad_vals.append((p_.getId(), p_.getValue(), float(mp[nm_])))
+    ok = c.prove(not bad_vals, "%s: every exported global parameter has exactly the model's value (differ: %s)" % (tag, bad_vals),
+                 info={"sig": "exported parameter value differs from the model's", "what": "%s: %s" % (tag, bad_vals)})
+    if ok is False:
+        c.failures[-1]["replay"] = dict(rp, values={}, aspect="parameter-values")
     # symbolic parameter values, shared by the model and by the document's global parameters
     psym = {}
     for name, idx in M.get_params2index().items():
